@@ -18,7 +18,7 @@ import numpy as np
 
 from harness import common
 from harness.common import REPO, ROOT
-from harness.props.c19 import norm, lst, zl
+from harness.props.c19 import norm, lst, zl, ast_pins
 
 IMPORTS = ("From Coq Require Import List ZArith Bool.\nImport ListNotations.\n"
            "From PyrexModel Require Import KernelModel.\nOpen Scope Z_scope.\n")
@@ -27,6 +27,23 @@ INTERP = {0: None, 1: 0.1, 2: 0.5}
 TRIG_KEYS = {0: "global", 1: "a", 2: "b"}
 AXES = [(1, 0, 0), (-1, 0, 0), (0, 1, 0), (0, -1, 0), (0, 0, 1), (0, 0, -1)]
 NGRID = 8
+
+
+PINNED = [("pyrex/kernel.py", ["EventKernel.event", "EventKernel.__init__"])]
+PINS = {   # values for the source the model was written against
+    "pyrex/kernel.py:EventKernel.event": "a950b15619091164",
+    "pyrex/kernel.py:EventKernel.__init__": "6ee235c7c157f3c4",
+}
+
+
+def pins_changed():
+    now = {}
+    for rel, names in PINNED:
+        try:
+            now.update({rel + ":" + k: v for k, v in ast_pins(rel, names).items()})
+        except Exception as e:
+            now[rel] = "unreadable: %s" % e
+    return [k for k in now if PINS.get(k) != now[k]], now
 
 
 # ------------------------------------------------------------------ generated interface table
@@ -465,6 +482,19 @@ def run_cell(cell, seed, tmpdir, case=None):
         gen, gd = make_generator(gk, rng, tmpdir, ice, light)
         ants = [Antenna(position=(0, 0, -150), noisy=False), Antenna(position=(40, 10, -60), noisy=False),
                 Antenna(position=(-30, 5, -300), noisy=False)][:2 if light else 3]
+        cont = ants
+        if rng.random() < 0.5:
+            # the antennas object is a real (combined, nested) Detector instead of a list
+            from pyrex.detector import Detector
+
+            class Str(Detector):
+                def set_positions(self, ps):
+                    self.antenna_positions.extend(ps)
+            ps = [tuple(a.position) for a in ants]
+            cont = Str(ps[:1]) + Str(ps[1:])
+            cont.build_antennas(Antenna, noisy=False)
+            ants = list(cont)
+            desc["antennas"] = "CombinedDetector"
         rec = []
 
         class W:
@@ -478,7 +508,7 @@ def run_cell(cell, seed, tmpdir, case=None):
         def trig(a):
             trig_calls.append(a)
             return any(len(x.signals) > 0 for x in a)
-        kernel = EventKernel(gen, ants, ice_model=ice, ray_tracer=tr, signal_model=sm, signal_times=times,
+        kernel = EventKernel(gen, cont, ice_model=ice, ray_tracer=tr, signal_model=sm, signal_times=times,
                              event_writer=W(), triggers=trig, offcone_max=offc, weight_min=wmin,
                              attenuation_interpolation=interp)
         for _ in range(1 if light else 2):
@@ -488,7 +518,7 @@ def run_cell(cell, seed, tmpdir, case=None):
             ev, tg = r
             kw = rec[-1]
             bad = None
-            if kw["event"] is not ev or kw["triggered"] is not tg or trig_calls[-1] is not ants:
+            if kw["event"] is not ev or kw["triggered"] is not tg or trig_calls[-1] is not cont:
                 bad = "writer/trigger did not get the generator's event / the supplied trigger on the antennas"
             # independent recomputation of which particles pass the cut
             passing = []
@@ -557,7 +587,7 @@ def run_matrix(ctx, tmpdir):
     import time as _time
     cells = matrix_cells(ctx.thorough)
     stats = {"cells": 0, "events": 0, "signals": 0, "empty": 0, "no_path": 0, "cut": 0, "slowest": []}
-    reps = ctx.n(1, 4)
+    reps = ctx.n(2 if pins_changed()[0] else 1, 4)
     for ci, cell in enumerate(cells):
         key = "matrix:%s:%s:%s:%s" % (cell[0], cell[3], cell[5], cell[6])
         for rep in range(reps):
@@ -615,6 +645,10 @@ def run(ctx):
                          {"kind": "iface", "callee": row["callee"], "site": row["site"], "signature": row["signature"]})
     # stub correspondence
     n = ctx.n(200, 4000)
+    changed, now = pins_changed()
+    ctx.extra["ast_pins"] = {"changed": changed, "current": now}
+    if changed and not ctx.thorough:
+        n = 1500          # the hand-modelled source was edited since the model was validated: escalate
     scs = []
     cdir = os.path.join(ROOT, "corpus", "C10")
     if os.path.isdir(cdir):
